@@ -6,7 +6,7 @@ from fractions import Fraction
 
 import pyais
 
-from .. import gen, impl
+from .. import common, gen, impl
 
 POS_CLASSES = ['MessageType1', 'MessageType4', 'MessageType9', 'MessageType18', 'MessageType19', 'MessageType21',
                'MessageType27', 'MessageType17']
@@ -162,6 +162,10 @@ class Prop:
 
     def run(self, ctx):
         rng = ctx.rng('c19')
+        # the chains run in worker processes forked NOW, before this process has decoded anything: there every
+        # message is decoded for the first time right after its close relatives (see impl._siblings), while the
+        # expected result is computed here from a plain decode
+        common.ensure_pool()
         rounds = 6 if ctx.tier == 'quick' else 60
         for rnd in range(rounds):
             zone = ['normal', 'antimeridian', 'polar', 'normal', 'normal', 'antimeridian'][rnd % 6]
@@ -187,7 +191,7 @@ class Prop:
             hexes = ' '.join(l.hex() for l in lines)
             for c in chains:
                 ops.append('chain %s %s %s' % (c, self.dist_table(c, [m for _, m in decoded]), hexes))
-            outs = ctx.corr(ops, impl.step, 'chain',
+            outs = ctx.corr(ops, impl.step, 'chain', workers=True,
                             nontrivial=lambda l, o: o not in ('[]', '[' + ','.join(str(i) for i, _ in decoded) + ']')
                             and not o.startswith('ERR'))
             perm_groups = {}
